@@ -5,7 +5,8 @@
    documents it trusts, that they are plain directory entries, that the root chain is complete, and
    (through C06/C08) that cached targets are verified and confined. *)
 From ToughV Require Export Model.Base Model.Pct Model.Sig Model.Glob Model.Deleg Model.Client Model.Cache.
-From ToughV Require Import Proofs.BaseP Proofs.PctP Proofs.ClientP Proofs.SitesP.
+From ToughV Require Import Proofs.BaseP Proofs.PctP Proofs.SitesP.
+From ToughV Require Export Proofs.ClientP.
 From Coq Require Import ZifyBool ZifyN ZifyNat Lia.
 
 (* the files the cache copies as timestamp, snapshot and targets are - on an unchanged server - the
